@@ -35,6 +35,15 @@ chk("C02", "model_checking",
     "bounded-exhaustive program x configuration enumeration (k<=1 quick, k<=2 thorough) with independent re-lexing oracle", "3/C02")
 
 
+chk("C12", "model_checking",
+    "History/batch explorer on the real binary: every single-byte perturbation (insert/delete/replace at every position) of each "
+    "formatted program, every pair of edits in the last 12-16 bytes, empty/newline/no-final-newline files, under --check (with and "
+    "without -q), all batches of length <= 3 over {PASS, FAIL, empty, unreadable}, all illegal flag combinations, and --if-changed in "
+    "five output modes; compared with a plain -f reference run and with before/after directory snapshots (names, sizes, sha1, mtime_ns).",
+    "reference = plain -f run of the same binary; 6 (quick) / 18 (thorough) base programs, two configurations",
+    "exhaustive perturbation x batch enumeration with reference-run oracle and directory snapshots", "3/C12")
+
+
 def main():
     commits = subprocess.run(["git", "-C", "/repo", "log", "--format=%h %s"], stdout=subprocess.PIPE, text=True).stdout.splitlines()
     hooks = [c.split()[0] for c in commits if c.split(" ", 1)[1].startswith("verif hook:")]
